@@ -399,6 +399,134 @@ func (w *World) callerLoopsOn(lp *loopInfo, call *ssa.Call, tuple []string) []*s
 
 // cycleAvoiding: a path header → … → back edge that executes no instruction satisfying avoid.
 func cycleAvoiding(lp *loopInfo, avoid func(ssa.Instruction) bool) []*ssa.BasicBlock {
+	path := cycleAvoidingCFG(lp, avoid)
+	if path == nil {
+		return nil
+	}
+	// a loop steered by a flag (`for done := false; !done; { …; done = ok; if !done { step } }`)
+	// has a CFG cycle through the arm that sets the flag, but arriving at the header with the
+	// flag set leaves the loop: such an arrival is not another iteration.  Enumerate the simple
+	// paths with the boolean facts of the arms taken; fall back to the plain answer when the
+	// enumeration is too large.
+	if feasible, decided := cycleAvoidingFeasible(lp, avoid); decided {
+		return feasible
+	}
+	return path
+}
+
+func cycleAvoidingFeasible(lp *loopInfo, avoid func(ssa.Instruction) bool) (found []*ssa.BasicBlock, decided bool) {
+	clean := func(b *ssa.BasicBlock) bool {
+		for _, in := range b.Instrs {
+			if avoid(in) {
+				return false
+			}
+		}
+		return true
+	}
+	hif, ok := lp.header.Instrs[len(lp.header.Instrs)-1].(*ssa.If)
+	if !ok {
+		return nil, false
+	}
+	// truth of v under facts; ok=false if unknown
+	var truth func(v ssa.Value, facts map[ssa.Value]bool, d int) (bool, bool)
+	truth = func(v ssa.Value, facts map[ssa.Value]bool, d int) (bool, bool) {
+		if d > 4 {
+			return false, false
+		}
+		if t, ok := facts[v]; ok {
+			return t, true
+		}
+		if c, ok := v.(*ssa.Const); ok && c.Value != nil && c.Value.Kind() == constant.Bool {
+			return constant.BoolVal(c.Value), true
+		}
+		if u, ok := v.(*ssa.UnOp); ok && u.Op == token.NOT {
+			t, ok := truth(u.X, facts, d+1)
+			return !t, ok
+		}
+		return false, false
+	}
+	steps := 0
+	var path []*ssa.BasicBlock
+	onPath := map[*ssa.BasicBlock]bool{}
+	var dfs func(b *ssa.BasicBlock, facts map[ssa.Value]bool) bool
+	dfs = func(b *ssa.BasicBlock, facts map[ssa.Value]bool) bool {
+		steps++
+		if steps > 20000 {
+			return false
+		}
+		path = append(path, b)
+		onPath[b] = true
+		defer func() { path = path[:len(path)-1]; delete(onPath, b) }()
+		var cond ssa.Value
+		if i, ok := b.Instrs[len(b.Instrs)-1].(*ssa.If); ok {
+			cond = i.Cond
+		}
+		for k, s := range b.Succs {
+			nf := facts
+			if cond != nil && len(b.Succs) == 2 {
+				if t, known := truth(cond, facts, 0); known && t != (k == 0) {
+					continue // arm ruled out by what the path already knows
+				}
+				nf = map[ssa.Value]bool{}
+				for a, t := range facts {
+					nf[a] = t
+				}
+				nf[cond] = k == 0
+				if u, ok := cond.(*ssa.UnOp); ok && u.Op == token.NOT {
+					nf[u.X] = k != 0
+				}
+			}
+			if s == lp.header {
+				// does this arrival start another iteration?
+				hf := map[ssa.Value]bool{}
+				for a, t := range nf {
+					hf[a] = t
+				}
+				for _, in := range lp.header.Instrs {
+					ph, ok := in.(*ssa.Phi)
+					if !ok {
+						break
+					}
+					for pi, pred := range lp.header.Preds {
+						if pred == b {
+							if t, known := truth(ph.Edges[pi], nf, 0); known {
+								hf[ph] = t
+							}
+						}
+					}
+				}
+				if t, known := truth(hif.Cond, hf, 0); known {
+					next := lp.header.Succs[1]
+					if t {
+						next = lp.header.Succs[0]
+					}
+					if !lp.body[next] {
+						continue // leaves the loop: not a cycle
+					}
+				}
+				found = append(append([]*ssa.BasicBlock{}, path...), lp.header)
+				return true
+			}
+			if !lp.body[s] || onPath[s] || !clean(s) {
+				continue
+			}
+			if dfs(s, nf) {
+				return true
+			}
+		}
+		return false
+	}
+	if !clean(lp.header) {
+		return nil, true
+	}
+	dfs(lp.header, map[ssa.Value]bool{})
+	if steps > 20000 {
+		return nil, false
+	}
+	return found, true
+}
+
+func cycleAvoidingCFG(lp *loopInfo, avoid func(ssa.Instruction) bool) []*ssa.BasicBlock {
 	clean := func(b *ssa.BasicBlock) bool {
 		for _, in := range b.Instrs {
 			if avoid(in) {
